@@ -61,6 +61,18 @@ def step (s : St) (ws : List String) : IO (St × String) := do
     let d := damaged s.wal (natArg cut) (parseFlips fl)
     let (rc, m, w') := Wal.recover (cfgOf (crc == "1")) (natArg mode) d s.pre
     return (s, s!"roll rc={rcName rc} msz={m.length} mh={hex16 (fnv m)} wsz={w'.length}")
+  | ["partial", p, w, k, crc, _, _] =>
+    -- a checkpoint killed before its (k+1)-th store: the loop with fuel for the records before that store
+    let pre ← readBytes p
+    let wal ← readBytes w
+    let isStore := fun (r : Wal.Rec) => match r with | .set .. => true | .write .. => true | .copy .. => true | _ => false
+    let recs := (Wal.walk wal).map (·.2)
+    let rec idx : List Wal.Rec → Nat → Nat → Nat
+      | [], _, j => j
+      | r :: t, left, j => if isStore r then (if left = 0 then j else idx t (left - 1) (j + 1)) else idx t left (j + 1)
+    let j := idx recs (natArg k) 0
+    let o := Wal.replayAux (cfgOf (crc == "1")) 0 j wal 0 true pre
+    return (s, s!"partial msz={o.main.length} mh={hex16 (fnv o.main)}")
   | ["ckpt", p, w, _] =>
     -- a real checkpoint: roll the whole log forward (mode 0, no offset) over the pre-image
     let pre ← readBytes p
